@@ -40,6 +40,12 @@ def gen(args) -> list:
         c = rnd.random()
         if c < 0.2:
             return rnd.choice([0, NPD - 1, 1, NPD // 2, 10**9 - 1, NPD - 10**9])
+        if c < 0.5:
+            # next to an hour / minute / second / millisecond boundary, at every sub-millisecond distance
+            unit = rnd.choice([3600 * 10**9, 60 * 10**9, 10**9, 10**6])
+            base = rnd.randrange(NPD // unit + 1) * unit
+            off = rnd.choice([0, 1, 99, 100, 999, 1000, 8191, 8192, 8193, 10**5, 196607, 196608, 10**6 - 1, rnd.randrange(1, 10**6)])
+            return min(max(base + rnd.choice([-1, 1]) * off, 0), NPD - 1)
         return rnd.randrange(NPD)
 
     def ramount(unit):
@@ -67,7 +73,55 @@ def gen(args) -> list:
         c = rnd.random()
         nod = rtime()
         lt = LocalTime.from_nanoseconds_since_midnight(nod)
-        if c < 0.12:
+        if c < 0.04:
+            # factories: fields inside and just outside their ranges
+            which = rnd.randrange(4)
+            h = rnd.choice([0, 23, 24, -1, rnd.randint(0, 23)])
+            mi = rnd.choice([0, 59, 60, -1, rnd.randint(0, 59)])
+            sec = rnd.choice([0, 59, 60, -1, rnd.randint(0, 59)])
+            if which == 0:
+                ms, tk = rnd.choice([0, 999, 1000, -1, rnd.randint(0, 999)]), rnd.choice([0, 9999, 10000, -1, rnd.randint(0, 9999)])
+                ev = {"op": "lt_from", "how": "hmsmt", "h": h, "mi": mi, "s": sec, "a": ms, "b": tk, "ok": 0 <= ms < 1000 and 0 <= tk < 10000,
+                      "sub": ms * 10**6 + tk * 100}
+                f = lambda: LocalTime.from_hour_minute_second_millisecond_tick(h, mi, sec, ms, tk)  # noqa: E731
+            elif which == 1:
+                tk = rnd.choice([0, 9_999_999, 10_000_000, -1, rnd.randint(0, 9_999_999)])
+                ev = {"op": "lt_from", "how": "hmst", "h": h, "mi": mi, "s": sec, "a": tk, "b": 0, "ok": 0 <= tk < 10**7, "sub": tk * 100}
+                f = lambda: LocalTime.from_hour_minute_second_tick(h, mi, sec, tk)  # noqa: E731
+            elif which == 2:
+                nn = rnd.choice([0, 999_999_999, 10**9, -1, rnd.randint(0, 999_999_999)])
+                ev = {"op": "lt_from", "how": "hmsn", "h": h, "mi": mi, "s": sec, "a": nn, "b": 0, "ok": 0 <= nn < 10**9, "sub": nn}
+                f = lambda: LocalTime.from_hour_minute_second_nanosecond(h, mi, sec, nn)  # noqa: E731
+            else:
+                ms = rnd.choice([0, 999, 1000, -1, rnd.randint(0, 999)])
+                ev = {"op": "lt_from", "how": "ctor", "h": h, "mi": mi, "s": sec, "a": ms, "b": 0, "ok": 0 <= ms < 1000, "sub": ms * 10**6}
+                f = lambda: LocalTime(h, mi, sec, ms)  # noqa: E731
+            ev["sub"] = ev["sub"] if ev["ok"] else 0
+            try:
+                ev["res"] = tt(f().nanosecond_of_day)
+            except Exception as e:  # noqa: BLE001
+                ev["exc"] = type(e).__name__
+            evs.append(ev)
+        elif c < 0.07:
+            unit = rnd.choice(["nanoseconds", "ticks", "milliseconds", "seconds", "minutes", "hours"])
+            upd = NPD // UNIT_NS[unit]
+            k = rnd.choice([0, 1, upd - 1, upd, upd + 1, -1, rnd.randrange(upd), rnd.randrange(upd)])
+            ev = {"op": "lt_since", "unit": unit, **amount_fields(unit, k), "inside": 0 <= k < upd}
+            try:
+                ev["res"] = tt(getattr(LocalTime, "from_" + unit + "_since_midnight")(k).nanosecond_of_day)
+            except Exception as e:  # noqa: BLE001
+                ev["exc"] = type(e).__name__
+            evs.append(ev)
+        elif c < 0.12:
+            x = lt
+            if rnd.random() < 0.5:
+                cal = rnd.choice(cals)
+                x = LocalDate._ctor(days_since_epoch=rnd.randint(cal._min_days, cal._max_days), calendar=cal).at(lt)
+            evs.append({"op": "lt_parts", "t": tt(x.nanosecond_of_day), "hour": x.hour, "minute": x.minute, "second": x.second,
+                        "millisecond": x.millisecond, "tick_of_second": x.tick_of_second, "nanosecond_of_second": x.nanosecond_of_second,
+                        "clock_hour_of_half_day": x.clock_hour_of_half_day, "tick_of_day": limbs(x.tick_of_day),
+                        "nanosecond_of_day": limbs(x.nanosecond_of_day), "microsecond": x.microsecond})
+        elif c < 0.0:
             evs.append({"op": "lt_parts", "t": tt(lt.nanosecond_of_day), "hour": lt.hour, "minute": lt.minute, "second": lt.second,
                         "millisecond": lt.millisecond, "tick_of_second": lt.tick_of_second, "nanosecond_of_second": lt.nanosecond_of_second,
                         "clock_hour_of_half_day": lt.clock_hour_of_half_day, "tick_of_day": limbs(lt.tick_of_day),
@@ -80,8 +134,13 @@ def gen(args) -> list:
             try:
                 if route == 0:
                     r = getattr(lt, "plus_" + unit)(k)
+                elif rnd.random() < 0.5:
+                    r = rnd.choice([lambda: lt + getattr(Period, "from_" + unit)(k), lambda: lt.plus(getattr(Period, "from_" + unit)(k)),
+                                    lambda: LocalTime.add(lt, getattr(Period, "from_" + unit)(k))])()
                 else:
-                    r = lt + getattr(Period, "from_" + unit)(k)
+                    # subtracting the negated amount is the same addition
+                    r = rnd.choice([lambda: lt - getattr(Period, "from_" + unit)(-k), lambda: lt.minus(getattr(Period, "from_" + unit)(-k)),
+                                    lambda: LocalTime.subtract(lt, getattr(Period, "from_" + unit)(-k))])()
                 ev["res"] = tt(r.nanosecond_of_day)
             except Exception as e:  # noqa: BLE001
                 ev["exc"] = type(e).__name__
